@@ -289,3 +289,9 @@ Proof.
     + intro Hin. apply in_app_or in Hin. destruct Hin as [Hin|[Hin|[]]]; [contradiction|]. apply N. now left.
     + apply IH; auto.
 Qed.
+
+Lemma py_nth_In {A} (l : list A) i c : py_nth l i = Some c -> In c l.
+Proof.
+  unfold py_nth. destruct (0 <=? i)%Z; [apply nth_error_In|].
+  destruct (0 <=? Z.of_nat (length l) + i)%Z; [apply nth_error_In|discriminate].
+Qed.
